@@ -20,7 +20,8 @@ RULE = ('(a) every string up to length 3/4 over an adversarial alphabet (quote, 
         'such payloads (text, JSON, binary) are queued on a fresh session and read by a poll with '
         'drawn Accept-Encoding (absent, gzip, deflate, both orders, q-values, unknown tokens, '
         'spaces, case), http_compression on/off, threshold in {0, len-1, len, len+1, 1024, huge} '
-        'and JSONP index; the declared Content-Encoding is undone (gzip/zlib), the JSONP literal '
+        'and JSONP index, also polls that end up carrying no packet (pending while the client '
+        'sends CLOSE); the declared Content-Encoding is undone (gzip/zlib), the JSONP literal '
         'evaluated, and the result must equal the reference payload; an encoding is declared only '
         'if offered, enabled and the body reached the threshold; an undeclared body is plain. '
         'Non-trivial: payload with a character needing escaping, or a compressed response, or a '
@@ -149,11 +150,24 @@ def check_e2e(case, ctx=None):
             else:
                 body0 = r0.resp_body
             sid = json.loads(body0.decode()[1:])['sid']
-            for d in datas:
-                w.call('send', sid, d)
-            w.settle()
-            r = w.http('GET', q + '&sid=' + sid + jq, headers=hdrs)
-            w.settle()
+            if variant == 'empty':
+                # a poll that ends up carrying no packet at all: it is pending when the client
+                # closes the session with a CLOSE packet in a POST
+                expected = ''
+                r = w.http('GET', q + '&sid=' + sid + jq, headers=hdrs)
+                w.settle()
+                w.http('POST', q + '&sid=' + sid, headers=[('Host', 'localhost')], body=b'1')
+                w.settle()
+                if not r.done:
+                    if ctx:
+                        ctx.case(rep, False, [impl, 'e2e-empty-poll-still-pending'])
+                    return
+            else:
+                for d in datas:
+                    w.call('send', sid, d)
+                w.settle()
+                r = w.http('GET', q + '&sid=' + sid + jq, headers=hdrs)
+                w.settle()
         if not r.done or r.status != 200 or r.exc is not None:
             raise V(impl, 'poll-not-answered-200', 'status=%s' % r.status,
                     'request %r: done=%s status=%s exc=%r' % (r.query, r.done, r.status, r.exc), rep)
@@ -239,7 +253,7 @@ e2e_st = st.tuples(st.sampled_from(['thread', 'async']),
                    st.lists(payload_st, min_size=1, max_size=4), accept_st, st.booleans(),
                    st.sampled_from(['zero', 'len-1', 'len', 'len+1', 'default', 'huge']),
                    st.one_of(st.none(), st.integers(0, 9999)),
-                   st.sampled_from(['poll', 'poll', 'poll', 'open']),
+                   st.sampled_from(['poll', 'poll', 'poll', 'poll', 'open', 'empty']),
                    st.one_of(st.none(), st.tuples(st.one_of(st.just('tiny'), payload_st), accept_st,
                                                   st.one_of(st.none(), st.integers(0, 99)))))
 direct_st = st.tuples(st.lists(st.tuples(st.integers(0, 6), st.one_of(st.none(), adv_text)) |
